@@ -5,8 +5,11 @@ import glob, os, importlib.util, json
 
 _here = os.path.dirname(os.path.abspath(__file__))
 PROPS, LEVEL_TEXT = {}, {}
+import re as _re
 for _f in sorted(glob.glob(os.path.join(_here, "cfg", "C*.py"))):
     _pid = os.path.basename(_f)[:-3]
+    if not _re.fullmatch(r"C[0-9]{2,3}", _pid):
+        continue  # helper files such as C09b.py are merged by their parent cfg
     _spec = importlib.util.spec_from_file_location("cfg_" + _pid, _f)
     _m = importlib.util.module_from_spec(_spec)
     _spec.loader.exec_module(_m)
